@@ -144,7 +144,7 @@ func newContractDB() *ContractDB {
 	return &ContractDB{Funcs: map[string]*Contract{}, Specs: map[string]*SpecFunc{}, Lemmas: map[string]*Lemma{}, Consts: map[string]string{}, Ghosts: map[string]string{}}
 }
 
-var keywordRe = regexp.MustCompile(`^(package|axiom|func|requires|ensures|modifies|mode|loop|invariant|decreases|hint|unfold|use|induct|may_panic|trusted|abstracts|inline|intonly|partial|posts_only|assert_at|use_at|unfold_at|ghost_at|assert_call|assume_call|preserves|sets|volatile_inv|check_pre|ensures_assumed|wraps_signed|volatile|witness|cases|property|spec|lemma|struct|global|ghost|noframe|const)\b`)
+var keywordRe = regexp.MustCompile(`^(package|axiom|func|requires|ensures|modifies|mode|loop|invariant|decreases|hint|unfold|use|induct|may_panic|trusted|abstracts|inline|intonly|partial|posts_only|assert_at|use_at|unfold_at|step_at|ghost_at|assert_call|assume_call|preserves|sets|volatile_inv|check_pre|ensures_assumed|wraps_signed|volatile|witness|cases|property|spec|lemma|struct|global|ghost|noframe|const)\b`)
 
 // stripComment removes a trailing `// ...` that is outside string literals
 func stripComment(s string) string {
@@ -690,7 +690,7 @@ func (db *ContractDB) LoadFile(path, pkgPath string, trusted bool) error {
 					return err
 				}
 				cur.SiteAsserts = append(cur.SiteAsserts, &SiteAssert{Text: text, Cl: cl, Ghost: true})
-			case "use_at", "unfold_at":
+			case "use_at", "unfold_at", "step_at":
 				r := strings.TrimSpace(rest)
 				if !strings.HasPrefix(r, "\"") {
 					return fmt.Errorf("%s: %s needs a quoted source text", st.src, kw)
@@ -705,7 +705,9 @@ func (db *ContractDB) LoadFile(path, pkgPath string, trusted bool) error {
 				if err != nil {
 					return err
 				}
-				cl.Text = strings.TrimSuffix(kw, "_at") + " " + cl.Text
+				if kw != "step_at" { // step_at: a stepping stone - checked at the site, then assumed
+					cl.Text = strings.TrimSuffix(kw, "_at") + " " + cl.Text
+				}
 				cur.SiteAsserts = append(cur.SiteAsserts, &SiteAssert{Text: text, Cl: cl, Hint: true})
 			case "assert_at":
 				// assert_at "text": expr
